@@ -569,8 +569,42 @@ def run_sorted(T, how):
         T.fail(f"{key}#paths|{how}", "no path", **meta)
 
 
+def run_constructor_ownership(T):
+    """Workspace(spec) owns its content: whatever spec is - a plain dict or another Workspace - the new object has the same content and
+    shares no mutable container with spec (every operation above, and PatchSet.apply, returns its result through this constructor;
+    an in-place edit of a result must never reach an operand, a stored patch or an earlier result)"""
+    key = f"{WS}::Workspace.__init__"
+    eng = T.engine(policy())
+    T.under_contract(eng, key)
+    box = {}
+
+    def thunk():
+        d, _ = build_workspace(OPERANDS[sorted(OPERANDS)[0]], "L.")
+        first = make_ws(eng, d)
+        second = make_ws(eng, first)
+        box.update(d=d, first=first, second=second)
+        return second
+    results = eng.explore(thunk)
+    T.absorb(eng, results)
+    for k, r in enumerate(results):
+        sfx = f"path{k}"
+        if r.kind != "return":
+            T.fail(f"{key}#no-raise|{sfx}", str(r.exc_name), kind="raises", constructor=True)
+            continue
+        d, first, second = box["d"], box["first"], box["second"]
+        for tag, new, src in (("from-a-dict", first, d), ("from-a-Workspace", second, first)):
+            same = deq(storage(new), storage(src))
+            if same is False:
+                T.fail(f"{key}#post.same-content|{tag},{sfx}", "content differs", kind="structure", constructor=True)
+            else:
+                T.ob(eng, f"{key}#post.same-content|{tag},{sfx}", r.path.hyps(), zb(same), kind="structure", constructor=True)
+            shared = set(containers(new)) & set(containers(src))
+            (T.ok if not shared else T.fail)(f"{key}#frame.shares-no-mutable-state-with-its-argument|{tag},{sfx}",
+                                             *([] if not shared else [f"{len(shared)} containers shared with the argument"]), kind="frame", constructor=True)
+
+
 def tasks(tier):
-    out = []
+    out = [("Workspace.__init__.ownership", run_constructor_ownership)]
     cases = combine_cases(tier)
     for i in range(0, len(cases), 4):
         chunk = cases[i:i + 4]
@@ -615,6 +649,18 @@ def replay(r):
     pyhf.set_backend("numpy")
     meta = r.get("meta") or {}
     bad = {}
+    if meta.get("constructor"):
+        from .C18_roundtrip import concrete_workspace
+        d = concrete_workspace(OPERANDS[sorted(OPERANDS)[0]], 1)
+        first = pyhf.Workspace(d)
+        second = pyhf.Workspace(first)
+        for tag, new, src in (("from-a-dict", first, d), ("from-a-Workspace", second, first)):
+            before = _copy.deepcopy(dict(src))
+            new["channels"][0]["samples"][0]["data"][0] += 17.0
+            new["measurements"][0]["config"]["parameters"].append({"name": "extra", "fixed": True})
+            if dict(src) != before:
+                bad[tag] = "an in-place edit of the new Workspace changed the object it was built from"
+        return {"reproduced": bool(bad), "disagreements": bad}
     if "left" in meta:
         from .C18_roundtrip import concrete_workspace
         Ld, Rd = concrete_workspace(OPERANDS[meta["left"]], 1), concrete_workspace(OPERANDS[meta["right"]], 2)
